@@ -265,8 +265,19 @@ static void specific_race_round(void){ for(int rep=0; rep<6 && !viol; rep++){ st
     for(int w=0; w<25000; w++){ int all=1; for(int k=0;k<n;k++) if(!atomic_load(&x->dtor[k])) all=0; if(all) break; usleep(200); }
     for(int k=0;k<n && !viol;k++) if(atomic_load(&x->dtor[k])!=1) fail("a queue-specific destructor did not run exactly once after the queue's last release (the value had been installed at the same moment as the queue's first other values): key / runs / threads",k,atomic_load(&x->dtor[k]),n);
     pthread_barrier_destroy(&x->bar); } }
+// dispatch_write / dispatch_read on a descriptor that is not open: the handler is called once with the error, the data object handed to
+// dispatch_write is reported back as unwritten and is released - its destructor runs exactly once (F47: it never ran)
+static void badfd_round(void){ int p[2]; if(pipe(p)) return; close(p[0]); close(p[1]); int bad=p[1];
+  _Atomic int *dt=calloc(1,sizeof *dt); __block _Atomic int calls=0, err=0; __block _Atomic long unw=-1; size_t sz=64+rnd()%4000; void *buf=malloc(sz);
+  dispatch_data_t d=dispatch_data_create(buf,sz,dispatch_get_global_queue(0,0),^{ atomic_fetch_add(dt,1); free(buf); });
+  dispatch_write(bad,d,dispatch_get_global_queue(0,0),^(dispatch_data_t rest,int e){ atomic_store(&unw,rest?(long)dispatch_data_get_size(rest):0); atomic_store(&err,e); atomic_fetch_add(&calls,1); });
+  dispatch_release(d);
+  for(int w=0; w<25000 && !(atomic_load(&calls) && atomic_load(dt)); w++) usleep(200);
+  if(atomic_load(&calls)!=1 || !atomic_load(&err)) fail("dispatch_write on a descriptor that is not open did not call its handler exactly once with an error (5 s): calls / error",atomic_load(&calls),atomic_load(&err),0);
+  else if(atomic_load(&unw)!=(long)sz) fail("dispatch_write on a descriptor that is not open did not report its data as unwritten: reported / submitted",atomic_load(&unw),(long)sz,0);
+  else if(atomic_load(dt)!=1) fail("the destructor of a data object handed to dispatch_write on a descriptor that is not open did not run exactly once after the application's release (5 s): runs",atomic_load(dt),0,0); }
 static int nrounds, do_trace;
-static void *worker(void *a){ long me=(long)a; for(int r=0;r<nrounds && !viol;r++){ hierarchy(do_trace && me==0); if(r%4==0) source_round(); if(r%5==1) timer_reclock_round(); if(r%4==2) suspend_round(); if(r%3==0) data_round(); if(r%3==1) group_round(); if(r%4==3) iobarrier_round(); if(r%2==1) specific_race_round(); if(r%2==0) retarget_round(do_trace && me==0); } return 0; }
+static void *worker(void *a){ long me=(long)a; for(int r=0;r<nrounds && !viol;r++){ hierarchy(do_trace && me==0); if(r%4==0) source_round(); if(r%5==1) timer_reclock_round(); if(r%4==2) suspend_round(); if(r%3==0) data_round(); if(r%3==1) group_round(); if(r%4==3) iobarrier_round(); if(r%2==1) specific_race_round(); if(r%3==2) badfd_round(); if(r%2==0) retarget_round(do_trace && me==0); } return 0; }
 static void on_crash(int sig){ char b[220]; int n=snprintf(b,sizeof b,"ORACLE VIOL seed=%llu the library trapped or crashed (signal %d) during object life cycles (its own over-release / resurrection / corrupt-state check, or a use after free)\n",(unsigned long long)seed,sig); if(n>0) (void)!write(1,b,(size_t)n); _exit(1); }
 int main(int argc,char**argv){ seed=argc>1?strtoull(argv[1],0,0):1; nrounds=argc>2?atoi(argv[2]):60; int nthr=argc>3?atoi(argv[3]):3; do_trace=1;
   if(!getenv("ASAN_OPTIONS")){ signal(SIGILL,on_crash); signal(SIGSEGV,on_crash); signal(SIGABRT,on_crash); signal(SIGBUS,on_crash); }
